@@ -658,6 +658,13 @@ public:
       "fundamental or enum types. For other types, call "
       "copy_and_verify on each element --- a[i].copy_and_verify(...)");
 
+    if constexpr (detail::rlbox_is_tainted_volatile_v<T_Wrap<T, T_Sbx>>) {
+      // The pointer itself lives in sandbox memory: read it once, so that the
+      // range check and every element copied refer to the same address
+      const tainted<T, T_Sbx> snapshot = impl();
+      return snapshot.copy_and_verify_range(verifier, count);
+    }
+
     std::unique_ptr<T_CopyAndVerifyRangeEl[]> target =
       copy_and_verify_range_helper(count);
     RLBOX_VERIF_INTERLEAVE("range.verifier");
@@ -682,6 +689,13 @@ public:
                   "copy_and_verify_string only allows char*");
 
     using T_VerifParam = detail::func_first_arg_t<T_Func>;
+
+    if constexpr (detail::rlbox_is_tainted_volatile_v<T_Wrap<T, T_Sbx>>) {
+      // The pointer itself lives in sandbox memory: read it once, so that the
+      // length, the range check and the copy refer to the same address
+      const tainted<T, T_Sbx> snapshot = impl();
+      return snapshot.copy_and_verify_string(verifier);
+    }
 
     RLBOX_VERIF_INTERLEAVE("str.fetch");
     auto start = impl().get_raw_value();
